@@ -549,9 +549,16 @@ impl C01 {
 				.collect();
 			for o in &post.outputs {
 				if o.status == OutputStatus::Locked && !locked_pre.contains(&o.key_id.to_hex()) {
+					// a late-locked *self*-send at minimum_confirmations 0 selects the
+					// unconfirmed output this very transaction creates (listed finding)
+					let sig = if deal.payer == deal.payee && args.min_conf == 0 {
+						"failed_call_locked_output:finalize:self_send_selected_own_unconfirmed_output"
+					} else {
+						"failed_call_locked_output:finalize"
+					};
 					v.push(run.viol(
 						"failure_atomicity",
-						"failed_call_locked_output:finalize",
+						sig,
 						format!(
 							"wallet {}: finalize of the genuine reply to a late-locked send failed ({}) and left output {} locked",
 							w,
